@@ -648,6 +648,8 @@ def string_fragment(report, uri_consts, shape_consts):
             ("shexer/utils/uri.py", None, 'longest_common_prefix', 'longest_common_prefix', {'uri1': 'str', 'uri2': 'str'}, 'str'),
             ("shexer/core/shexing/strategy/minimal_iri_strategy/annotate_min_iri_strategy.py", 'AnnotateMinIriStrategy', '_determine_suitable_iri_pattern',
              'determine_suitable_iri_pattern', {'longest_common_prefix': 'optstr'}, 'optstr'),
+            ("shexer/utils/triple_yielders.py", None, 'check_if_property_belongs_to_namespace_list', 'check_if_property_belongs_to_namespace_list',
+             {'str_prop': 'str', 'namespaces': 'strlist'}, 'bool'),
             ("shexer/utils/shapes.py", None, 'build_shapes_name_for_class_uri', 'build_shapes_name_for_class_uri',
              {'class_uri': 'str', 'shapes_namespace': 'str'}, 'str'),
             ("shexer/utils/translators/list_of_classes_to_shape_map.py", 'ListOfClassesToShapeMap', '_get_shape_label_for_class_uri',
@@ -675,6 +677,8 @@ def string_fragment(report, uri_consts, shape_consts):
         header = next((l for l in out if l.startswith("def S.%s " % lname) or l.startswith("def %s " % lname)), "")
         nstr = sum(1 for t in types.values() if t == 'str')
         pat = "[" + ", ".join("s%d" % i for i in range(nstr)) + "]"
+        if 'strlist' in types.values():        # the strings after the plain ones are the list
+            pat = " :: ".join(["s%d" % i for i in range(nstr)] + ["rest"])
         args, i = [], 0
         for t in types.values():
             if t == 'str':
@@ -684,8 +688,10 @@ def string_fragment(report, uri_consts, shape_consts):
                 args.append("flag")
             elif t == 'optstr':
                 args.append("opt")
+            elif t == 'strlist':
+                args.append("rest")
         call = "%s %s%s" % (lname, "resolve " if "(resolve :" in header else "", " ".join(args))
-        arms.append('  | "%s", %s => some (%s)' % (lname, pat, call if ret == 'optstr' else "(%s).map some" % call))
+        arms.append('  | "%s", %s => some (%s)' % (lname, pat, call if ret == 'optstr' else "(%s).map fun b => some (if b then ['1'] else ['0'])" % call if ret == 'bool' else "(%s).map some" % call))
     out.append("/-- dispatch by name for `strdriver` (the translator's correspondence check) -/")
     out.append("def dispatch (resolve : List Char → List Char → List Char) (name : String) (strs : List (List Char)) (flag : Bool)")
     out.append("    (opt : Option (List Char)) : Option (Except PyExc (Option (List Char))) :=")
